@@ -9,7 +9,7 @@ A_COMMON = ("Trusted base: go/types+go/ssa, govc's translation and memory model,
             "no interference); atomics as plain accesses; mathematical integers with exact conversions; StoreFile/io contracts (A5), "
             "encoding/binary, bytes.Buffer, encoding/json contracts (A6-A8), neutral callbacks (A9); allocator freshness (A13: a node or handle taken from a free list is treated as new); "
             "data-structure invariants that are `relies` clauses (assumed at function entry, re-established by the writers' postconditions, listed in the evidence); "
-            "`postulate` clauses (ghost denotations of slots, listed in the evidence).")
+            "`postulate` clauses (ghost denotations of slots, listed in the evidence); for closures: no retention of function values by callees, stability of `captures` invariants between a closure's creation and its calls, the footprint axiom of visitor invariants (DESIGN 10.1, 10.7).")
 
 A_E2E = (" A bounded END-TO-END cross-check of the same statements on the real code against independent oracles (per property: a map model with all tree invariants checked at every node after every step of pseudo-random Set/Delete/Flush/Evict/re-open histories; an independent root-record validator over files with junk tails, truncations and boundary alignments; FlushRevert histories; a fault injected at every file call of every operation; a read log for value bytes; traces with and without neutral callbacks) runs with every check and is reported separately under coverage.bounded: it exercises the assumptions (slot-denotation postulates, library contracts), and is never counted as proved.")
 
